@@ -6,7 +6,7 @@ from sa.calls import bind, is_name
 from sa.common import (chain_root, index_elts, is_full_slice, outermost, resolved_calls, returns_of, stores_to,
                        expand_name)
 from sa.defuse import DefUse, loc_name
-from sa.model import AnalysisError, AnchorMissing, src, walk_function
+from sa.model import AnalysisError, AnchorMissing, src, walk_function, const_value
 from sa.struct import call_name, find, kwarg, norm
 
 EXPLANATION = (
@@ -170,6 +170,31 @@ def d1_single_selector(ctx):
         if d.kind == "param":
             continue
         v = d.value
+        # an index array replaced by the equivalent basic slice: slice(int(X[0]), int(X[-1]) + 1) for the selector X itself - valid exactly when X is an
+        # increasing run of consecutive integers, which the guard must establish (equal end-point span alone also holds for a permuted / gapped selection)
+        if isinstance(v, ast.Call) and call_name(v) == "slice" and len(v.args) == 2:
+            def _strip_int(e):
+                return e.args[0] if isinstance(e, ast.Call) and call_name(e) == "int" and e.args else e
+            a0, a1 = _strip_int(v.args[0]), v.args[1]
+            okform = isinstance(a0, ast.Subscript) and loc_name(a0.value) == nm and const_value(a0.slice) == (True, 0) and isinstance(a1, ast.BinOp) and isinstance(a1.op, ast.Add) \
+                and const_value(a1.right) == (True, 1) and isinstance(_strip_int(a1.left), ast.Subscript) and loc_name(_strip_int(a1.left).value) == nm \
+                and const_value(_strip_int(a1.left).slice) == (True, -1)
+            from sa import guards as GD
+            at_ = GD.Atoms()
+            pc_ = GD.path_condition(du.cfg, d.node, at_)
+            consecutive = False
+            for k_ in GD.atoms_of(pc_):
+                e_ = at_.exprs.get(k_)
+                t_ = src(e_).replace(" ", "") if e_ is not None else ""
+                if GD.entails(pc_, GD.Atom(k_)) is True and "diff(" in t_ and "==1" in t_ and "all(" in t_ and nm in t_:
+                    consecutive = True
+                if GD.entails(pc_, GD.Atom(k_)) is True and "array_equal(" in t_ and "arange(" in t_ and nm in t_:
+                    consecutive = True
+            ctx.check(okform and consecutive, fi, d.stmt, d.stmt, "an index array is swapped for a basic slice only when it is an increasing run of consecutive channels",
+                      f"`{src(d.stmt)[:80]}` replaces the channel index array by the slice between its end points without establishing that the indices are increasing and consecutive "
+                      f"(guards: {GD.show(pc_)[:160]}): a permuted or gapped selection whose end points happen to be size - 1 apart (sorted NP2 readers, caller lists such as [0, 5, 2]) "
+                      "is read as the contiguous block - column i is no longer the electrode of geometry entry i", key="selector-slice", name_free=True)
+            continue
         ok = (isinstance(v, ast.Subscript) and loc_name(v.value) == ORDER and loc_name(v.slice) is not None
               and all(x.kind == "param" for x in du.reaching(loc_name(v.slice), d.stmt)) and bool(du.reaching(loc_name(v.slice), d.stmt)))
         ctx.check(ok, fi, d.stmt, d.stmt, "selector is raw_channel_order indexed by the caller's channel selector",
@@ -186,7 +211,8 @@ def d1_single_selector(ctx):
         for d in perm_defs:
             cn = cfg.node_for(d.stmt)
             gs_ = [norm(t) for t, pol in cfg.guards(cn) if pol]
-            ok = any("raw_channel_order" in g and "hasattr" in g for g in gs_)
+            ok = any("raw_channel_order" in g and ("hasattr" in g or "isnotNone" in g.replace(" ", "") or "None" in g) for g in gs_) or \
+                any("raw_channel_order" in src(t) and "None" in src(t) and not pol for t, pol in cfg.guards(cn))
             ctx.check(ok, fi, d.stmt, "guard of the permutation",
                       "the permutation is skipped only when the reader has no raw_channel_order (flat binary without metadata)",
                       f"the permutation is conditional on {[src(t) for t, _ in cfg.guards(cn)]}: some readers with a sorted "
@@ -280,6 +306,8 @@ def d2_provenance(ctx):
         is_arange = isinstance(v, ast.Call) and call_name(v) == "arange"
         is_order = loc_name(val) in order_names and len(du.strong_reaching(loc_name(val), stmt)) == 1
         ok = is_arange or is_order
+        if isinstance(val, ast.Constant) and val.value is None and not isinstance(tgt, ast.Subscript):
+            ok = True    # "no order" marker (flat binary without metadata): read() must then test `is not None` - checked by D1's permutation guard
         if isinstance(stmt, ast.AugAssign):
             ok = False
         if is_arange and isinstance(tgt, ast.Subscript):
@@ -380,6 +408,12 @@ def d3_dispatch(ctx):
             return "?"
 
         okslots = slot(ns) in ("item", 0) and slot(cs) in (None, 1)
+        if (ns is None and cs is None and len(b.star_args) == 1 and is_name(b.star_args[0], item)
+                and v.args and isinstance(v.args[0], ast.Starred)):
+            # self.read(*item, ...): item[0], item[1] land on read's first two positional parameters
+            rp = [x.arg for x in read.node.args.posonlyargs + read.node.args.args if x.arg != "self"]
+            okslots = rp[:2] == ["nsel", "csel"]
+            ns = cs = None
         ctx.check(okslots, fi, n.stmt, n.stmt, "first index selects samples, second selects channels",
                   f"nsel={src(ns) if ns else None}, csel={src(cs) if cs else None}: sample and channel selectors are not item[0], item[1]",
                   key="slots:" + norm(v)[:50])
